@@ -51,6 +51,9 @@ type verifC08 struct {
 	sentR22 []int
 	sentR21 [][]int
 	started []bool // Start() has returned for party i
+	out     chan tss.Message
+	end     chan *LocalPartySaveData
+	probes  int
 }
 
 func (c *verifC08) lp(i int) *LocalParty { return c.parties[i].(*LocalParty) }
@@ -141,6 +144,34 @@ func (c *verifC08) after(d net.Delivery, ok bool, err *tss.Error) {
 	}
 }
 
+// C08 channel discipline: before a message is delivered properly, the same wire bytes are
+// handed to the recipient on the WRONG channel kind (a broadcast-type message as
+// point-to-point, a point-to-point one as broadcast). Whatever Update answers, the party
+// must not consume it: its waiting set is unchanged, it sends nothing and emits no result.
+func (c *verifC08) wrongChannel(d net.Delivery) {
+	i := d.To.Index
+	if !c.started[i] {
+		return
+	}
+	before := make([]bool, c.n)
+	for _, p := range c.parties[i].WaitingFor() {
+		before[p.Index] = true
+	}
+	nOut, nEnd := len(c.out), len(c.end)
+	pm := net.ParseAs(d.Msg, !d.Msg.IsBroadcast())
+	c.parties[i].Update(pm)
+	after := make([]bool, c.n)
+	for _, p := range c.parties[i].WaitingFor() {
+		after[p.Index] = true
+	}
+	for j := 0; j < c.n; j++ {
+		v.Assert("wrong-channel-message-is-not-consumed (waiting set unchanged)", before[j] == after[j])
+	}
+	v.Assert("wrong-channel-message-triggers-no-send", len(c.out) == nOut)
+	v.Assert("wrong-channel-message-triggers-no-result", len(c.end) == nEnd)
+	c.probes++
+}
+
 func verifNewC08(parties []tss.Party) *verifC08 {
 	n := len(parties)
 	c := &verifC08{parties: parties, n: n, sentR1: make([]int, n), sentR22: make([]int, n), sentR21: make([][]int, n), started: make([]bool, n)}
@@ -167,6 +198,11 @@ func verifC07Run(n, t, mode int, dup, preStart bool, starve int) {
 	parties, out, end := verifSetup(n, t, 0)
 	c8 := verifNewC08(parties)
 	s := &net.Sched{Parties: parties, Out: out, Mode: mode, Dup: dup, StarveIdx: starve, Hook: verifCoinHook, After: c8.after, Sent: c8.sent}
+	if verifC08WrongChannel {
+		c8.out, c8.end = out, end
+		s.Before = c8.wrongChannel
+		s.After = nil // the store-based WaitingFor expectation does not apply while a refused message sits in a slot
+	}
 	if preStart {
 		// party 0 starts alone; its first message reaches the others before their Start
 		v.Assert("start-succeeds", parties[0].Start() == nil)
@@ -184,6 +220,9 @@ func verifC07Run(n, t, mode int, dup, preStart bool, starve int) {
 	}
 	s.Run()
 	v.Assert("no-update-errors", len(s.Errs) == 0)
+	if verifC08WrongChannel {
+		v.Assert("wrong-channel-probes-were-made", c8.probes > 0)
+	}
 	c8.final()
 	saves := make([]*LocalPartySaveData, n)
 	for i := 0; i < n; i++ {
@@ -205,6 +244,21 @@ func verifC07Run(n, t, mode int, dup, preStart bool, starve int) {
 	}
 	verifUs = verifUsByParty
 	verifC03Check(saves, n, t)
+}
+
+var verifC08WrongChannel = false
+
+func VerifHarness_C08_eddsa_keygen_n2_wrong_channel_fifo() {
+	verifC08WrongChannel = true
+	verifC07Run(2, 1, net.FIFO, false, false, 0)
+}
+func VerifHarness_C08_eddsa_keygen_n3_wrong_channel_lifo() {
+	verifC08WrongChannel = true
+	verifC07Run(3, 1, net.LIFO, false, false, 0)
+}
+func VerifHarness_C08_eddsa_keygen_n3_wrong_channel_fifo() {
+	verifC08WrongChannel = true
+	verifC07Run(3, 1, net.FIFO, false, false, 0)
 }
 
 func VerifHarness_C07_eddsa_keygen_n2_all_orders() { verifC07Run(2, 1, net.Choose, false, false, 0) }
